@@ -724,7 +724,15 @@ class Sym:
     def __ceil__(self): return sym_ceil(self)
 
     def __round__(self, n=None):
-        raise Unsupported('round() on symbolic')
+        if n is not None:
+            raise Unsupported('round(x, n) on symbolic')
+        if self.is_int:
+            return self
+        # Python 3: round half to even
+        f = z3.ToInt(self.t)
+        frac = self.t - z3.ToReal(f)
+        half = z3.RealVal('1/2')
+        return Sym(z3.simplify(z3.If(frac < half, f, z3.If(frac > half, f + 1, z3.If(f % 2 == 0, f, f + 1)))))
 
     def __index__(self):
         if not self.is_int:
